@@ -365,7 +365,9 @@ func classifyTail(stmts []ast.Stmt, sh shape) shape {
 	return sh
 }
 
-func lstr(s string) string { return "\"" + strings.ReplaceAll(strings.ReplaceAll(s, "\\", "\\\\"), "\"", "\\\"") + "\"" }
+func lstr(s string) string {
+	return "\"" + strings.ReplaceAll(strings.ReplaceAll(s, "\\", "\\\\"), "\"", "\\\"") + "\""
+}
 func llist(xs []string) string {
 	var q []string
 	for _, x := range xs {
